@@ -68,6 +68,33 @@ func (l elementLeaf) hash() types.Hash256 {
 	return types.HashBytes(buf)
 }
 
+// MarshalJSON implements json.Marshaler. The element hash and spent flag are
+// unexported, but they are needed to recompute the leaf's hash, so they must
+// survive a JSON round trip of an update.
+func (l elementLeaf) MarshalJSON() ([]byte, error) {
+	return json.Marshal(struct {
+		*types.StateElement
+		ElementHash types.Hash256 `json:"elementHash"`
+		Spent       bool          `json:"spent"`
+	}{l.StateElement, l.elementHash, l.spent})
+}
+
+// UnmarshalJSON implements json.Unmarshaler.
+func (l *elementLeaf) UnmarshalJSON(b []byte) error {
+	var v struct {
+		types.StateElement
+		ElementHash types.Hash256 `json:"elementHash"`
+		Spent       bool          `json:"spent"`
+	}
+	if err := json.Unmarshal(b, &v); err != nil {
+		return err
+	}
+	l.StateElement = &v.StateElement
+	l.elementHash = v.ElementHash
+	l.spent = v.Spent
+	return nil
+}
+
 // proofRoot returns the root obtained from the leaf and its proof..
 func (l elementLeaf) proofRoot() types.Hash256 {
 	return proofRoot(l.hash(), l.LeafIndex, l.MerkleProof)
